@@ -1769,7 +1769,9 @@ def deref(o, timeout_ms=None, timeout_val=None):
 def _deref_blocking(o: IBlockingDeref, timeout_ms: int | None = None, timeout_val=None):
     timeout_s = None
     if timeout_ms is not None:
-        timeout_s = timeout_ms / 1000 if timeout_ms != 0 else 0
+        # The wait primitives take a float no larger than `threading.TIMEOUT_MAX`
+        # (a Ratio, a BigDecimal or Long/MAX_VALUE milliseconds are neither)
+        timeout_s = min(max(float(timeout_ms) / 1000, 0.0), threading.TIMEOUT_MAX)
     return o.deref(timeout_s, timeout_val)
 
 
